@@ -89,10 +89,14 @@ static void freeDelay()
   std::this_thread::sleep_for(std::chrono::microseconds(x % 300));
 }
 
+static std::atomic<bool> loopExited{false};
+static std::atomic<long> curExec{0};
+
 static void pointFcn(const char *site, const void *)
 {
   if (mode == FREE) {
-    freeDelay();
+    if (site[0] == 'L' && site[2] == 'e' && site[3] == 'x') loopExited = true;   // "L_exit": mainLoop is returning
+    else freeDelay();
     return;
   }
   int t = tidOf(site);
@@ -115,8 +119,11 @@ static void pointFcn(const char *site, const void *)
   }
 }
 
-static void bodyFcn()
+static void bodyFcn(long execId)
 {
+  // a loop task of an earlier execution that is still winding down (TASK launch: the destructor does not
+  // wait for it) must not write into the log of the current execution
+  if (execId != curExec.load()) return;
   {
     std::unique_lock<std::mutex> lk(M);
     logLocked('L', "BodyEnter", "");
@@ -127,7 +134,7 @@ static void bodyFcn()
   } else {
     pointFcn("B_in", nullptr);
   }
-  logEvent('L', "BodyExit");
+  if (execId == curExec.load()) logEvent('L', "BodyExit");
 }
 
 struct Exec
@@ -141,7 +148,8 @@ static void ctlThread(const Exec &ex)
 {
   {
     std::unique_ptr<AsyncLoop> al;
-    al.reset(new AsyncLoop([] { bodyFcn(); }, ex.method));
+    const long myExec = curExec.load();
+    al.reset(new AsyncLoop([myExec] { bodyFcn(myExec); }, ex.method));
     for (size_t ip = 0; ip <= ex.script.size(); ++ip) {
       const std::string c = ip < ex.script.size() ? ex.script[ip] : "destroy";
       pointFcn("H_next", nullptr);
@@ -253,6 +261,8 @@ int main(int argc, char **argv)
     }
     auto tStart = Clock::now();
     T0 = tStart;
+    loopExited = false;
+    curExec++;
     std::thread c(ctlThread, std::cref(ex));
     if (mode != FREE) {
       std::unique_lock<std::mutex> lk(M);
@@ -314,7 +324,7 @@ int main(int argc, char **argv)
             bool anyAlive = th[0].st != Done || th[1].st != Done;
             if (!anyAlive) break;
             // nobody can be granted: wait for arrivals (a notified thread coming back, a join returning)
-            if (idleMs < 600) {
+            if (idleMs < 2000) {
               St s0 = th[0].st, s1 = th[1].st;
               CV.wait_for(lk, std::chrono::milliseconds(10), [&] { return th[0].st != s0 || th[1].st != s1; });
               idleMs += 10;
@@ -358,9 +368,12 @@ int main(int argc, char **argv)
       _exit(3);
     }
     c.join();
-    if (mode == FREE && ex.method == AsyncLoop::TASK) {
-      // the loop task ends on its own after the destructor; give late body events time to be logged
-      std::this_thread::sleep_for(std::chrono::milliseconds(20));
+    if (mode == FREE) {
+      // TASK launch: the loop task ends on its own after the destructor; wait until mainLoop has returned
+      // so that everything this execution can still log is in its log
+      auto t1 = Clock::now();
+      while (!loopExited.load() && std::chrono::duration_cast<std::chrono::milliseconds>(Clock::now() - t1).count() < 3000)
+        std::this_thread::sleep_for(std::chrono::microseconds(100));
     }
     Json r = Json::object();
     r.set("id", j["id"]);
